@@ -219,9 +219,11 @@ class Layer(BaseObject):
             name = source.name
         self.postNotification("Layer.GlyphWillBeAdded", data=(dict(name=name)))
         self.holdNotifications(note="Requested by Layer.insertGlyph.")
-        dest = self.newGlyph(name)
-        dest.copyDataFromGlyph(glyph)
-        self.releaseHeldNotifications()
+        try:
+            dest = self.newGlyph(name)
+            dest.copyDataFromGlyph(glyph)
+        finally:
+            self.releaseHeldNotifications()
         return dest
 
     def _insertGlyph(self, glyph, beginObservations=True):
